@@ -323,9 +323,21 @@ def main():
     ok = (len(stmts) >= 5 and stmts[0].startswith("V: Vec<RawBufferedSegment> = Vec::new()")
           and stmts[1].startswith("V.append(") and stmts[2].startswith("V.is_empty()")
           and stmts[3] == "V.sort()")
+    # (B) an equivalent canonicalisation further down: regrouping the drained vector into a BTreeMap keyed by
+    # (sample_name, contig_name) and sorting every group by original_place gives the same order, so a tree
+    # that drops the (then redundant) first sort still classifies a canonical vector
+    regroup = re.search(r"BTreeMap<\(String, String\), Vec<RawBufferedSegment>>\s*=\s*BTreeMap::new\(\);\s*"
+                        r"for (\w+) in %s\.drain\(\.\.\)\s*\{\s*let key = \(\1\.sample_name\.clone\(\), \1\.contig_name\.clone\(\)\);\s*"
+                        r"(\w+)\.entry\(key\)\.or_default\(\)\.push\(\1\);\s*\}" % re.escape(var), body)
+    resort = regroup and re.search(r"for (\w+) in %s\.values_mut\(\)\s*\{\s*\1\.sort_by_key\(\|s\| s\.original_place\);\s*\}" % re.escape(regroup.group(2)), body)
+    reads_between = len(stmts) >= 4 and stmts[0].startswith("V: Vec<RawBufferedSegment> = Vec::new()") and stmts[1].startswith("V.append(") \
+        and stmts[2].startswith("V.is_empty()") and stmts[3].startswith("V.drain(..)")
+    ok_b = bool(regroup and resort and reads_between)
+    ok = ok or ok_b
     w("/-- agc_compressor.rs `classify_raw_segments_at_barrier`: the drained vector is declared, filled by")
     w("    `append` from the per-worker buffers, tested for emptiness and then SORTED (`raw_segs.sort()`)")
-    w("    before any other statement reads it. First uses seen (V = the vector): %s -/" % json.dumps(stmts).replace("-/", "- /"))
+    w("    before any other statement reads it - or (equivalent) drained straight into a BTreeMap keyed by")
+    w("    (sample_name, contig_name) whose groups are sorted by original_place. First uses seen (V = the vector): %s -/" % json.dumps(stmts).replace("-/", "- /"))
     w("def classifySortsDrained : Bool := " + ("true" if ok else "false"))
     # --- the 2-bit k-mer masks of the fallback-minimizer scan (defect D14: `1u64 << (2 * k)` at k = 32)
     masks = [re.sub(r"\s+", " ", m.group(1)).strip()
